@@ -227,7 +227,7 @@ pub fn run(report: &Report, budget: &Budget) {
     let (fdone, ftotal) = crate::c04::run_format_rider(report, budget);
     // Every state of the history graph
     let depth = if thorough { 3 } else { 2 };
-    let hb = Budget::new(if thorough { 500 } else { 15 });
+    let hb = crate::util::sub_budget(if thorough { 500 } else { 15 });
     let st = crate::hist::explore(report, &hb, "C13", depth, thorough, thorough, true, &hist_oracle, None, None);
     crate::hist::write_stats(report, &st, depth);
     // Every archive produced by the C01 sweeps (every option point)
